@@ -511,6 +511,26 @@ func buildLine(line string) (b []byte, err error) {
 	return rule.Build(ru)
 }
 
+func buildDirect(s spec) (b []byte, err error) {
+	defer func() {
+		if p := recover(); p != nil {
+			b, err = nil, fmt.Errorf("PANIC: %v", p)
+		}
+	}()
+	sr := &rule.SyscallRule{Type: rule.AppendSyscallRuleType, List: s.list, Action: s.action, Syscalls: s.scText, Keys: s.keys}
+	if s.prepend {
+		sr.Type = rule.PrependSyscallRuleType
+	}
+	for _, it := range s.items {
+		if it.compare {
+			sr.Filters = append(sr.Filters, rule.FilterSpec{Type: rule.InterFieldFilterType, LHS: it.field, Comparator: it.op, RHS: it.rhsField})
+		} else {
+			sr.Filters = append(sr.Filters, rule.FilterSpec{Type: rule.ValueFilterType, LHS: it.field, Comparator: it.op, RHS: it.text})
+		}
+	}
+	return rule.Build(sr)
+}
+
 func modeBuild(seed uint64, n int, out *sx.Out) {
 	scratch, _ := os.MkdirTemp("", "verif-rule")
 	defer os.RemoveAll(scratch)
@@ -576,6 +596,12 @@ func modeBuild(seed uint64, n int, out *sx.Out) {
 			}
 		}
 		b, err := buildLine(line)
+		direct := i%3 == 2
+		if direct {
+			// the same rule as a Rule value handed to Build directly: what Build accepts does not depend on flags.Parse having read it
+			b, err = buildDirect(s)
+			line = "(built directly) " + line
+		}
 		if err == nil {
 			accepted++
 		}
@@ -596,7 +622,7 @@ func modeBuild(seed uint64, n int, out *sx.Out) {
 			cls = "syscall-rule/rejected"
 		}
 		out.Case(fmt.Sprintf("BRule %s %s %s", s.coq(), optBytes(b, err), rt), desc, cls, err == nil && len(s.items) > 0)
-		if toks, serr := shellquote.Split(line); serr == nil && len(line) < 2000 && i%2 == 0 {
+		if toks, serr := shellquote.Split(line); serr == nil && len(line) < 2000 && i%2 == 0 && !direct {
 			tc := make([]string, len(toks))
 			for j, t := range toks {
 				tc[j] = cs(t)
